@@ -837,8 +837,13 @@ func WithCancel(parent context.Context) (context.Context, context.CancelFunc) {
 		ctxNodes, ctxEpoch = map[<-chan struct{}]*ctxNode{}, epoch
 	}
 	n := &ctxNode{obj: ExternalObj(ctx.Done())}
+	if ctx.Err() != nil {
+		// born cancelled (the parent is already done): all such contexts share one
+		// closed Done channel, and no cancellation event will ever be observed on it
+		return ctx, cancel
+	}
 	ctxNodes[ctx.Done()] = n
-	if pd := parent.Done(); pd != nil {
+	if pd := parent.Done(); pd != nil && pd != ctx.Done() {
 		if pn := ctxNodes[pd]; pn != nil {
 			pn.children = append(pn.children, n)
 		}
